@@ -149,9 +149,40 @@ def rule_OD2(rep, prog):
             v = slotkey(s_.ops[0])
             direct = any(slotkey(c.ops[0]) == v for c in retains)
             # or a retain loop over records[i].data_object of the new object
-            loop = any(fn.inst(c.ops[0]) is not None and fn.inst(c.ops[0]).op == "load" and "data_object" in prog.fields(fn.inst(c.ops[0])) for c in retains)
+            # ... of the SAME new object the store goes into (retaining the source's records instead puts the references on the wrong leaves)
+            tgt = slotkey(s_.d["ptr"]["base"])
+            loop = any(fn.inst(c.ops[0]) is not None and fn.inst(c.ops[0]).op == "load" and "data_object" in prog.fields(fn.inst(c.ops[0]))
+                       and slotkey(fn.inst(c.ops[0]).d["ptr"]["base"]) == tgt for c in retains)
             rep.require(rid, direct or loop, s_.loc, name, "stored-subobject-not-retained:%s" % name,
                         "%s stores an object into records[].data_object without retaining it" % name, sample={"fn": name, "store": s_.loc})
+    # records copied wholesale (memcpy) into a fresh object: the references are taken on THAT object's records
+    ncopy = 0
+    for name in ("dispatch_data_create_subrange", "dispatch_data_create_concat"):
+        fn = prog.fn(name)
+        retains = calls_named(fn, ("_dispatch_data_retain", "dispatch_retain", "_dispatch_retain"))
+        for m in fn.all_insts():
+            if m.op != "call" or not (m.callee or "").startswith("llvm.memcpy"):
+                continue
+            di = fn.inst(m.ops[0])
+            while di is not None and di.op == "bitcast":
+                di = fn.inst(di.ops[0])
+            if di is None or not di.d.get("ptr") or "records" not in prog.fields(di):
+                continue
+            dst = root_ptr(fn, di.d["ptr"]["base"])
+            ncopy += 1
+            ok = False
+            for c in retains:
+                l = fn.inst(c.ops[0])
+                while l is not None and l.op == "bitcast":
+                    l = fn.inst(l.ops[0])
+                if l is not None and l.op == "load" and "data_object" in prog.fields(l) and root_ptr(fn, l.d["ptr"]["base"]) == dst and fn.inst_reaches(m, c):
+                    ok = True
+            rep.require(rid, ok, m.loc, name, "copied-records-not-retained:%s" % name,
+                        "%s copies range records into the new object but no retain loop over the NEW object's records[].data_object follows (the references "
+                        "are missing or taken on another object's records): a leaf the result points at is destroyed while in use, another never is" % name,
+                        sample={"fn": name, "memcpy": m.loc})
+    if ncopy < 2:
+        rep.unknown(rid, "expected record memcpy sites in subrange/concat, found %d" % ncopy)
     fn = prog.fn("_dispatch_data_dispose")
     rep.saw(fn)
     db = calls_named(fn, "_dispatch_data_destroy_buffer")
@@ -213,6 +244,88 @@ def rule_BD4(rep, prog):
     rep.require(rid, bool(ov), fn.file, fn.name, "concat-unchecked", "dispatch_data_create_concat must check n1 + n2 for overflow", sample={"checked_ops": len(ov)})
 
 
+def linform(fn, op, depth=0):
+    """linear form {atom: coef} of an integer value over add/sub (atoms: other instructions / parameters; constants under key 1)"""
+    if op[0] == "c":
+        return {1: op[1]}
+    if op[0] != "i" or depth > 12:
+        return {tuple(op[:2]): 1}
+    i = fn.insts[op[1]]
+    if i.op in ("add", "sub"):
+        a, b = linform(fn, i.ops[0], depth + 1), linform(fn, i.ops[1], depth + 1)
+        out = dict(a)
+        for k_, v in b.items():
+            out[k_] = out.get(k_, 0) + (v if i.op == "add" else -v)
+        return {k_: v for k_, v in out.items() if v}
+    return {("i", i.id): 1}
+
+
+def rule_AI6(rep, prog):
+    rid = rep.rule("C13-AI6", "byte conservation in dispatch_data_create_subrange: the bytes taken from the first record (records[i].length - offset, the length stored "
+                   "for the first record of the result) are exactly what is subtracted from `length` to obtain the bytes still to be covered by later records", floor=1)
+    fn = prog.fn("dispatch_data_create_subrange")
+    rep.saw(fn)
+    allocs = {("i", c.id) for c in calls_named(fn, "_dispatch_data_alloc")}
+    # first-record adjustment: store (load new.records[0].length - X) into new.records[0].length
+    X = None
+    for st in fn.all_insts():
+        if st.op == "store" and "length" in prog.fields(st) and root_ptr(fn, st.d["ptr"]["base"]) in allocs:
+            lf = linform(fn, st.ops[0])
+            loads = [a for a, c in lf.items() if isinstance(a, tuple) and a[0] == "i" and fn.insts[a[1]].op == "load" and "length" in prog.fields(fn.insts[a[1]]) and c == 1]
+            negs = [a for a, c in lf.items() if c == -1]
+            if len(lf) == 2 and loads and len(negs) == 1:
+                X = negs[0]
+    if X is None:
+        rep.unknown(rid, "first-record adjustment (records[0].length -= offset) not found in dispatch_data_create_subrange")
+        return
+    cands = []
+    for i in fn.all_insts():
+        if i.op != "sub":
+            continue
+        lf = linform(fn, ("i", i.id))
+        srcl = [a for a, c in lf.items() if isinstance(a, tuple) and a[0] == "i" and fn.insts[a[1]].op == "load" and "length" in prog.fields(fn.insts[a[1]])
+                and root_ptr(fn, fn.insts[a[1]].d["ptr"]["base"]) == ("a", 0) and c == -1]
+        if srcl and X in lf and len(lf) == 3 and not any(u.op in ("add", "sub") and linform(fn, ("i", u.id)).keys() >= lf.keys() for u in fn.users(i)):
+            cands.append((i, lf))
+    if not cands:
+        rep.unknown(rid, "remaining-length computation (length - (records[i].length - offset)) not found in dispatch_data_create_subrange")
+        return
+    for i, lf in cands:
+        rep.require(rid, lf.get(X) == 1 and sorted(v for k_, v in lf.items() if k_ != X) == [-1, 1], i.loc, fn.name, "subrange-bytes-not-conserved",
+                    "dispatch_data_create_subrange computes the bytes left after the first record as %s: the in-record offset must be ADDED back (the first record "
+                    "contributes records[i].length - offset bytes); otherwise the result's records cover fewer bytes than its size (or the count wraps)"
+                    % {("%%%d" % k_[1] if isinstance(k_, tuple) else k_): v for k_, v in lf.items()}, sample={"at": i.loc})
+
+
+def rule_BD7(rep, prog):
+    rid = rep.rule("C13-BD7", "dispatch_data_copy_region: the record walk is entered only with location < size (strict); location == size yields the empty region at "
+                   "offset size", floor=1)
+    fn = prog.fn("dispatch_data_copy_region")
+    rep.saw(fn)
+    calls = calls_named(fn, "_dispatch_data_copy_region")
+    if not calls:
+        rep.unknown(rid, "no call of _dispatch_data_copy_region in dispatch_data_copy_region")
+        return
+    for c in calls:
+        cx = paths.dom_ctx(fn, c)
+        ok = False
+        for cid, tv in cx.truth.items():
+            t = fn.insts[cid]
+            if t.op != "icmp":
+                continue
+            a, b = t.ops[0], t.ops[1]
+            la, lb = fn.inst(a), fn.inst(b)
+            is_size = lambda x: x is not None and x.op == "load" and "size" in prog.fields(x) and root_ptr(fn, x.d["ptr"]["base"]) == ("a", 0)
+            pred = t.d["pred"]
+            if tuple(a[:2]) == ("a", 1) and is_size(lb):      # location ? size
+                ok = ok or (pred, tv) in (("uge", False), ("ult", True))
+            if tuple(b[:2]) == ("a", 1) and is_size(la):      # size ? location
+                ok = ok or (pred, tv) in (("ule", False), ("ugt", True))
+        rep.require(rid, ok, c.loc, fn.name, "copy-region-location-not-strictly-inside",
+                    "dispatch_data_copy_region walks the records without having established location < size: for location == size a leaf returns the whole object "
+                    "at offset 0 and a composite runs off its record list", sample={"call": c.loc})
+
+
 def run(rep, tier="quick", srcdir=None, only=None):
     prog, units = load(UNITS, tier, srcdir)
     rep.units = units
@@ -227,6 +340,10 @@ def run(rep, tier="quick", srcdir=None, only=None):
         rule_WM3(rep, prog)
     if want("C13-BD4"):
         rule_BD4(rep, prog)
+    if want("C13-AI6"):
+        rule_AI6(rep, prog)
+    if want("C13-BD7"):
+        rule_BD7(rep, prog)
 
 
 MANIFEST = {
